@@ -71,6 +71,11 @@ def run(ctx):
     m = check_accessors(ctx, lib, "leaf-table")
     ctx.floor("leaf-table", m, 100, "leaf decision paths walked")
     ctx.attempt("check_key_order", check_key_order, ctx, lib, ip)
+    # the comparison operators are core forms: their value table (operator gate, == as type-gated structural
+    # equality, numbers by numeric value) is the C10 rule set, evaluated here on the same facts
+    from . import c10
+    for name in ("check_gate", "check_equality", "check_number_equality"):
+        ctx.attempt(name, getattr(c10, name), ctx, lib)
 
 
 def single_ok(arm):
